@@ -58,6 +58,12 @@ CHECKS = {
  "C16": ("pathsym relational step (both synchronisation modes in one path, z3 validity of post_th = post_mp) + schedule exploration through the multiprocessing code paths on scheduler-aware model primitives",
          "(i) every Inv state x every call of the C05/C11 menu gives equal results and post-states in both modes; (ii) the C07/C12 interleavings re-explored with USE_MULTIPROCESSING=True execute the _mp sections. Real forked processes contending through OS-level primitives are NOT covered (not applicable to symbolic execution): the claim is limited to the code paths under assumed primitive semantics.",
          "multiprocessing.Lock/Condition/Manager().list() assumed to behave like their threading counterparts.", "2/C16"),
+ "C14": ("pathsym enumeration of z3-constrained configuration selector vectors (creation x reopening) over the real constructor on the environment model; zero-mutation trace check",
+         "For every feasible (creation configuration, reopening configuration / property shape / encoding) within the difference budget, on empty and populated stores: accepted <=> equal after integer coercion and then existing data is retrievable and addressed as before; refused => documented error class and no mutating file-system operation on the trace; unsupported creation algorithm and data directories without hashstore.yaml refused without changes.",
+         "Finite selectors (the solver enumerates the constrained product: 54k pairs quick); depth 1-5, width 1-4, 5+6 algorithm names, 2 namespaces, int/str encodings, 8 property shapes.", "2/C14"),
+ "C20": ("pathsym relational step: client main() and the API call on two copies of one symbolic store state in one path; z3 validity of post_client = post_api",
+         "Every client verb with subsets of its options (valid and invalid values, missing -pid/-path) from an arbitrary symbolic store state: same success/error as the API call with the same values, same error class for well-typed values, equal post-states (z3), stdout carries the API's cid/digests/path/content; create-store round trip client<->API. An omitted -formatid means the store's default namespace for all metadata verbs.",
+         "Option subsets of size <= 2 (+1 triple); knbvm/Postgres verbs outside; real argparse and factory executed, trusted.", "2/C20"),
 }
 NA = {}
 def main():
